@@ -67,9 +67,7 @@ def corr_pure(chk, binary):
     """CancelReason's derived Ord (36 pairs; 49 pairs for Option<CancelReason>) and MaxFail::is_exceeded"""
     pairs = [(a, b) for a in range(6) for b in range(6)]
     impl = vlib.run_impl(binary, "dispatcher", [dict(op="cmp", a=a, b=b) for a, b in pairs])
-    model = vlib.coq_eval("c10ord", dc.IMPORTS,
-                          [f"cmp_code (reason_cmp (reason_of_rank {a}) (reason_of_rank {b}))" for a, b in pairs],
-                          dc.PRELUDE)
+    model = dc.coq_eval("c10ord", [f"cmp_code (reason_cmp (reason_of_rank {a}) (reason_of_rank {b}))" for a, b in pairs])
     for (a, b), i, m in zip(pairs, impl, model):
         chk.count("reason_ord_cases")
         want = 0 if a < b else (1 if a == b else 2)   # the declared severity order
@@ -82,8 +80,7 @@ def corr_pure(chk, binary):
     opairs = [(a, b) for a in range(7) for b in range(7)]
     impl = vlib.run_impl(binary, "dispatcher", [dict(op="cmpopt", a=a, b=b) for a, b in opairs])
     enc = lambda n: "None" if n == 0 else f"(Some (reason_of_rank {n - 1}))"
-    model = vlib.coq_eval("c10oord", dc.IMPORTS,
-                          [f"cmp_code (opt_rank {enc(a)} ?= opt_rank {enc(b)})" for a, b in opairs], dc.PRELUDE)
+    model = dc.coq_eval("c10oord", [f"cmp_code (opt_rank {enc(a)} ?= opt_rank {enc(b)})" for a, b in opairs])
     for (a, b), i, m in zip(opairs, impl, model):
         chk.count("opt_reason_ord_cases")
         if i != m:
@@ -92,8 +89,7 @@ def corr_pure(chk, binary):
             return
     mfs = [(mf, k) for mf in (None, 0, 1, 2, 3, 5) for k in range(0, 7)]
     impl = vlib.run_impl(binary, "dispatcher", [dict(op="maxfail", mf=mf, failed=k) for mf, k in mfs])
-    model = vlib.coq_eval("c10mf", dc.IMPORTS,
-                          [f"b2n (max_fail_exceeded {dc.coq_mf(mf)} {k})" for mf, k in mfs], dc.PRELUDE)
+    model = dc.coq_eval("c10mf", [f"b2n (max_fail_exceeded {dc.coq_mf(mf)} {k})" for mf, k in mfs])
     for (mf, k), i, m in zip(mfs, impl, model):
         chk.count("max_fail_cases")
         want = mf is not None and k >= mf
@@ -137,7 +133,7 @@ def build_cases(r, tier, prop=PROP, mix=(0.35, 0.3, 0.35)):
 def run_step_correspondence(chk, binary, cases, r, oracle, tier, tag):
     """runs implementation + model over the cases; returns (impl results, first mismatch or None)"""
     impl = vlib.run_impl(binary, "dispatcher", cases, shards=16)
-    model = vlib.coq_eval(tag, dc.IMPORTS, [dc.coq_seq_expr(c) for c in cases], dc.PRELUDE)
+    model = dc.coq_eval(tag, [dc.coq_seq_expr(c) for c in cases])
     mismatch = None
     for c, i, m in zip(cases, impl, model):
         if "steps" not in i:
@@ -254,7 +250,7 @@ def replay(path, seed):
     inp = d.get("failing_input") or d.get("input")
     if isinstance(inp, dict) and inp.get("op") == "seq":
         steps = vlib.run_impl(binary, "dispatcher", [inp])[0]["steps"]
-        model = vlib.coq_eval("c10r", dc.IMPORTS, [dc.coq_seq_expr(inp)], dc.PRELUDE)[0]
+        model = dc.coq_eval("c10r", [dc.coq_seq_expr(inp)])[0]
         why = dc.oracle_c10(inp, steps)
         diff = dc.diff_seq(steps, model)
         print("oracle:", why or "accepts")
